@@ -370,7 +370,9 @@ class ConvexPolyhedron(GeoBody):
 
     def __eq__(self, other):
         if isinstance(other, ConvexPolyhedron):
-            return hash(self) == hash(other)
+            # equal hashes alone do not prove equality (hash(-1.0) == hash(-2.0)
+            # in Python), so the vertices are compared as well
+            return hash(self) == hash(other) and self.point_set == other.point_set
         else:
             return False
 
